@@ -21,9 +21,9 @@ ASSUME = [
     'optional); one flow',
     'reload variants per workflow: unchanged, +task (new task downstream of '
     'the first task), +edge between existing tasks (same-cycle and/or '
-    '[-P1]), -task, -edge; [runtime] is the same in every variant; 1 (quick)'
-    ' / 2 (thorough) reloads per execution, offered at every main-loop '
-    'boundary',
+    '[-P1]), -task, -edge; [runtime] is the same in every variant; 1 reload '
+    'per execution (thorough: 2 on the one-cycle workflows), offered at '
+    'every main-loop boundary',
     'the reload blocks inside one main-loop iteration while preparing tasks '
     'submit: during that wait the environment completes the pending '
     'jobs-submit commands successfully (its only possible move)',
@@ -52,18 +52,20 @@ def catalogue(tier: str):
         sp.update(extra)
         out.append(sp)
 
-    add('chain2-f1-hold-a', 'chain2', 1, drop_tasks=['a', 'b'],
+    # `reloads`: reloads per execution (thorough); quick is always 1
+    add('chain2-f1-hold-a', 'chain2', 1, drop_tasks=['a', 'b'], reloads=2,
         helpers=[('hold', {'tasks': ['1/a']})])
-    add('fanout-f1-qlimit1', 'fanout', 1,
+    add('fanout-f1-qlimit1', 'fanout', 1, reloads=2,
         queues={'q': {'limit': 1, 'members': ['a', 'b', 'c']}},
         add_edges=[('b', 0, 'c')] if tier == 'quick'
         else [('b', 0, 'c'), ('c', 0, 'b')],
         drop_tasks=['c'] if tier == 'quick' else ['a', 'c'])
     add('chain2-f1-paused', 'chain2', 1, options={'paused_start': True},
-        helpers=[('resume', {})])
+        helpers=[('resume', {})], reloads=2)
     add('prevb-f2-ra0', 'prevb', 2, scheduling={'runahead limit': 'P0'})
-    add('custom-f1', 'custom', 1)
-    add('chain2-f2-holdcp1', 'chain2', 2, options={'holdcp': '1'})
+    add('custom-f1', 'custom', 1, reloads=2)
+    add('chain2-f2-holdcp1', 'chain2', 2, options={'holdcp': '1'},
+        reloads=2)
     if tier == 'thorough':
         add('prevb-f2', 'prevb', 2)
         add('chain2-f2', 'chain2', 2)
@@ -72,9 +74,8 @@ def catalogue(tier: str):
         add('chain3-f1', 'chain3', 1, add_edges=[('a', 0, 'c')])
         add('failopt-f1', 'failopt', 1)
         add('prev-f3', 'prev', 3)
-        add('chain2-f2-hold-b', 'chain2', 2,
-            helpers=[('hold', {'tasks': ['1/b']}),
-                     ('hold', {'tasks': ['2/a']})])
+        add('chain2-f1-hold-b', 'chain2', 1,
+            helpers=[('hold', {'tasks': ['1/b']})])
     return out
 
 
@@ -88,7 +89,7 @@ def make_factory(spec, tier='quick'):
     def factory():
         return ReloadProfile(
             spec, tier=tier,
-            reload_budget=2 if tier == 'thorough' else 1,
+            reload_budget=spec.get('reloads', 1) if tier == 'thorough' else 1,
             helpers=spec.get('helpers'),
             helper_budget=1 if spec.get('helpers') else 0,
             monitors=[ReloadPreserves, PoolInvariants],
@@ -126,7 +127,9 @@ def run(ctx: Ctx) -> Result:
                 'definitions per workflow': {
                     s['name']: sorted(definitions(s, ctx.tier))
                     for s in specs},
-                'reloads per execution': ctx.pick(1, 2)},
+                'reloads per execution': {
+                    s['name']: ctx.pick(1, s.get('reloads', 1))
+                    for s in specs}},
         assumptions=ASSUME, min_states=200,
         extra_cov={'observed (per-process counters, include replays)':
                    counts})
